@@ -298,6 +298,34 @@ def check(rep, F, tier, replay=None):
             rep.violation("COLRET-gate", key_, "%s stores a collateral return output without any min-ADA computation: set_collateral_return(1 lovelace to a base address) is accepted and build_tx() returns a body whose collateral return is below the minimum (add_output rejects the same output)" % key_, {})
     rep.floor("functions storing TransactionBuilder.collateral_return", 3, n_cr)
     minada_addr_rule(rep, F)
+    # COLRET-size: a computed collateral return passes the value-size gate of add_output
+    rep.rule("COLRET-size", "every function that computes a collateral return and tests its minimum ADA (set_collateral_return_and_total, set_total_collateral_and_return) also stores it only behind the passing edge of a comparison of the serialised value's length with config.max_value_size, like add_output: all native assets of the collateral inputs have to go into the return output, which can make its value larger than the ledger allows")
+    n_cs = 0
+    for nm_ in ("TransactionBuilder::set_collateral_return_and_total", "TransactionBuilder::set_total_collateral_and_return"):
+        fid_ = find_fn(rep, F, nm_)
+        if not fid_:
+            continue
+        n_cs += 1
+        rep.inst("COLRET-size")
+        fn_ = F.fns[fid_]
+        org_ = ff.Origins(F, fid_)
+        ffs_ = ff.FnFields(F, fid_)
+        st_ = [s_[2] for s_ in ffs_.stores_to("builders::tx_builder::TransactionBuilder", "collateral_return")] + [c.bb for c in F.calls(fid_) if (c.to or "").endswith("TransactionBuilder::set_collateral_return")]
+        ok_ = bool(st_)
+        for bi in st_:
+            # clearing stores (None) need no gate: judge only blocks that also see the min-ADA comparison
+            g_ = False
+            gs_ = mp.dominating_guards(F, fid_, bi, org_)
+            if not any(d["kind"] == "call" and any(any("min_ada_for_output" in x for x in a_) for a_ in d.get("args", [])) for s_, e_, d in gs_):
+                continue
+            for s_, edge, d in gs_:
+                both = d.get("lhs", []) + d.get("rhs", [])
+                if d["kind"] == "bin" and d["op"] in ("Gt", "Le", "Lt", "Ge") and any(x.endswith("TransactionBuilderConfig.max_value_size") for x in both) and any(x.startswith("call:") and x.split("@")[0].endswith("::len") for x in both):
+                    g_ = True
+            ok_ = ok_ and g_
+        if not ok_:
+            rep.violation("COLRET-size", nm_.rsplit("::", 1)[-1], "%s stores a collateral return without comparing its value size with max_value_size: 30 assets on the collateral input, max_value_size 100 -> a return output with a 159-byte value is accepted (add_output rejects the same output)" % nm_.rsplit("::", 1)[-1], {})
+    rep.floor("collateral setters computing a return", 2, n_cs)
     # TOPUP-size: the change packer sizes a value with the widest coin it can end up with
     rep.rule("TOPUP-size", "where the change packer judges a value against max_value_size (will_adding_asset_make_output_overflow, pack_nfts_for_change) the coin is lowered to the minimum ADA only on the edge where the minimum is larger than the coin already there (all the ADA that is left, which the last change output receives after the packing, bypassing add_output): an unconditional `set_coin(min_ada)` under-sizes the value by up to 4 bytes and the topped-up change output exceeds max_value_size")
     n_tu = 0
